@@ -151,6 +151,15 @@ def tv_eval(test: ast.AST, assume: Dict[str, Optional[bool]]) -> Optional[bool]:
         if all(v is False for v in vals):
             return False
         return None
+    if isinstance(test, ast.Call) and dotted(test.func) in ("any", "all") and len(test.args) == 1 and isinstance(test.args[0], (ast.List, ast.Tuple)):
+        vals = [tv_eval(v, assume) for v in test.args[0].elts]
+        if dotted(test.func) == "any":
+            if any(v is True for v in vals):
+                return True
+            return False if all(v is False for v in vals) else None
+        if any(v is False for v in vals):
+            return False
+        return True if all(v is True for v in vals) else None
     if isinstance(test, ast.Compare) and len(test.ops) == 1:
         l, op, r = test.left, test.ops[0], test.comparators[0]
         dl = dotted(l)
@@ -271,6 +280,32 @@ def reaching_origins(ctx, f: Func, e: ast.AST, at: Optional[ast.AST] = None, dep
             out.append(e if st is f.node else st)
         else:
             out.extend(reaching_origins(ctx, f, v, st, depth + 1))
+    return out
+
+
+def dominating_conditions(ctx, f: Func, node: ast.AST) -> List[Tuple[str, bool, ast.AST]]:
+    """(normalised conjunct text, polarity, test node) of every branch edge that dominates node's statement.
+
+    A true edge contributes each conjunct of its test with polarity True; a false edge
+    contributes each disjunct with polarity False (De Morgan)."""
+    from .astutil import disjuncts
+
+    cfg = ctx.cfg(f)
+    fv = FuncView.of(f.node)
+    st = fv.stmt_of(node)
+    out: List[Tuple[str, bool, ast.AST]] = []
+    if st is None or not cfg.has(st):
+        return out
+    target = cfg.node(st)
+    for n, s in cfg.stmt.items():
+        if isinstance(s, (ast.If, ast.While)):
+            t, fl = cfg.edge_node(s, "true"), cfg.edge_node(s, "false")
+            if cfg.dominates(t, target):
+                for cj in conjuncts(s.test):
+                    out.append((src(cj), True, cj))
+            elif cfg.dominates(fl, target):
+                for dj in disjuncts(s.test):
+                    out.append((src(dj), False, dj))
     return out
 
 
